@@ -11,7 +11,9 @@ package main
 import (
 	"bytes"
 	"context"
+	"encoding/binary"
 	"fmt"
+	"io"
 	"sync"
 	"sync/atomic"
 	"time"
@@ -29,9 +31,13 @@ const (
 	eager     = 0 // scans as fast as it can, keeps every object to the end
 	lazy      = 1 // takes one object, lets the decoders run as far ahead as the pipeline allows, scans on (again at the middle)
 	stopEarly = 2 // takes the first half of the expected objects, closes the scanner, keeps the objects
+	// reads the header first, sets the skip flags and filters afterwards, then scans; the input
+	// delivers its data blocks only after the options are set (a stream whose sender waits), so
+	// that no decoder can have looked at the options before they were written
+	lateConfig = 3
 )
 
-var consumerNames = []string{"eager", "lazy", "stop-early"}
+var consumerNames = []string{"eager", "lazy", "stop-early", "options-after-header"}
 
 type fcase struct {
 	FileName string
@@ -125,6 +131,53 @@ func quiesce(rd *countingReader, sn *seen) {
 	}
 }
 
+// gatedReader hands out the first free bytes (the header block) at once and everything behind them
+// only after release was closed.
+type gatedReader struct {
+	r       io.Reader
+	free    int
+	release chan struct{}
+}
+
+func (g *gatedReader) Read(p []byte) (int, error) {
+	if g.free > 0 {
+		if len(p) > g.free {
+			p = p[:g.free]
+		}
+		n, err := g.r.Read(p)
+		g.free -= n
+		return n, err
+	}
+	<-g.release
+	return g.r.Read(p)
+}
+
+// firstBlockLen is the length of the first file block: 4 bytes of header length, the BlobHeader
+// (field 3 = datasize), the blob.
+func firstBlockLen(data []byte) int {
+	n := int(binary.BigEndian.Uint32(data))
+	h := data[4 : 4+n]
+	for len(h) > 0 {
+		key, k := binary.Uvarint(h)
+		h = h[k:]
+		switch key & 7 {
+		case 0:
+			v, k := binary.Uvarint(h)
+			h = h[k:]
+			if key>>3 == 3 {
+				return 4 + n + int(v)
+			}
+		case 2:
+			l, k := binary.Uvarint(h)
+			h = h[k+int(l):]
+		default:
+			kit.Fatalf("C08: unexpected wire type in a BlobHeader written by the generator")
+		}
+	}
+	kit.Fatalf("C08: BlobHeader without datasize")
+	return 0
+}
+
 type scanOut struct {
 	objs      []osm.Object
 	atReturn  string // first difference between an object and its expectation at the moment it was returned
@@ -134,11 +187,20 @@ type scanOut struct {
 
 func scan(data []byte, procs, flags int, preds [3]int, consumer int, sn *seen, w []osm.Object) scanOut {
 	rd := &countingReader{r: bytes.NewReader(data)}
-	s := osmpbf.New(context.Background(), rd, procs)
-	configure(s, flags, preds, sn)
 	var out scanOut
-	if consumer != lazy {
-		_, out.herr = s.Header() // the lazy consumer starts with Scan
+	var s *osmpbf.Scanner
+	if consumer == lateConfig {
+		g := &gatedReader{r: rd, free: firstBlockLen(data), release: make(chan struct{})}
+		s = osmpbf.New(context.Background(), g, procs)
+		_, out.herr = s.Header()
+		configure(s, flags, preds, sn)
+		close(g.release)
+	} else {
+		s = osmpbf.New(context.Background(), rd, procs)
+		configure(s, flags, preds, sn)
+		if consumer != lazy {
+			_, out.herr = s.Header() // the lazy consumer starts with Scan
+		}
 	}
 	limit := -1
 	if consumer == stopEarly {
@@ -210,7 +272,7 @@ func main() {
 			"Restricted products use the pattern predicates %v (hash-* = one bit of a hash over every field of the element as the filter sees it) as (p,p,p), p on one kind with nil or reject-all on the others, and mixed triples ('ext', only with a pattern-filtered kind not skipped) and 12 triples of the first six predicates ('base'): "+
 			"family ext = X,Y,Z x ext x 8 flag sets x procs (quick: Y procs 1,3; Z procs 1); grouped = files of 14 and 45 blocks (thorough also 120) with 0-6 primitive groups per block (ids aligned so that bit2/not-bit2 reject one whole group and accept the next, mod3-* give reject-accept-accept runs across group and block borders) x (ext+base) x 8 x procs x consumer (14 blocks: eager (quick: procs 1,3), and lazy with one decoder; 45 blocks: lazy = lets the decoders run as far ahead as the pipeline allows after the first object and at the middle; thorough: both everywhere); "+
 			"edges = one file of absent / present-but-empty / delimiter-only tag, node and member lists, empty dense group, empty group, empty block, changeset groups, >=128 tags/nodes/members, ids 0, negative, 2^31, 2^40+1, 2^53+1, empty/blank/non-ASCII/long strings x (ext+base) x 8 x procs {1,3} (thorough: all); wide3 = 3-byte string ids x (ext+base) x 8 (quick: flags 0,1,6) x procs 1; "+
-			"big = a block of 8001 nodes; nohdr = X and the 14-block file without header block; procs = decoder counts 0,-1,4,5,6,10,11,12,16,34 x 4 triples x flags {0,1,6} on X and the 14-block file (lazy on the 45-block file for 0,4,5,6,10,11); stop = consumer closes the scanner after half of the expected objects and keeps them; twin = two scanners with different predicates on the same bytes at the same time. "+
+			"big = a block of 8001 nodes; nohdr = X and the 14-block file without header block; procs = decoder counts 0,-1,4,5,6,10,11,12,16,34 x 4 triples x flags {0,1,6} on X and the 14-block file (lazy on the 45-block file for 0,4,5,6,10,11); stop = consumer closes the scanner after half of the expected objects and keeps them; late-config = Header() is called first and the skip flags and filters are set afterwards, on an input that delivers its data blocks only once the options are set; twin = two scanners with different predicates on the same bytes at the same time. "+
 			"Objects are compared when returned and again after the scan. non-trivial = at least one element rejected and at least one accepted; distinct = (file,flags,preds,procs,consumer,twin)", np, files.PredNames[:np], procs, files.PredNames[7:]))
 		r.Assume("predicates are pure functions of the element's content and never retain their argument")
 		r.Note("not judged: what happens when the consumer writes into a returned object (append to its Tags etc.) - the property only speaks about the scanner modifying returned objects; filters that retain or modify their argument; skip flags or filters changed while a scan runs")
@@ -365,6 +427,16 @@ func main() {
 					for _, p := range []int{1, 2} {
 						t := tw[1]
 						add(fcase{FileName: n, Flags: flags, Preds: tw[0], Procs: p, Twin: &t, Fam: "twin"})
+					}
+				}
+			}
+		}
+		// the header is read first, the options are set afterwards (the data blocks arrive later still)
+		for _, n := range []string{"X-three-blocks", "Y-one-block-mixed", "G-14-blocks-grouped"} {
+			for _, pr := range append(few, [3]int{7, 7, 7}, [3]int{2, 2, 2}, [3]int{1, 4, 2}) {
+				for flags := 0; flags < 8; flags++ {
+					for _, p := range []int{1, 2, 3} {
+						add(fcase{FileName: n, Flags: flags, Preds: pr, Procs: p, Consumer: lateConfig, Fam: "late-config"})
 					}
 				}
 			}
